@@ -70,6 +70,10 @@ pub fn gen(prop: &str, scen: &str, _k: u64, seed: u64, tier: &str) -> Case {
     case.set("stream_kind", r_in.below(6) as i64);
     if writer_role {
         case.wops = random_wops(&mut r_ops, len, true, 30);
+    } else if case.fmt == "lzma2mt" && case.knob("stream_kind") == 0 && r_in.pct(40) {
+        // a stream of dependent chunks that relies on a preset dictionary
+        let plen = *r_in.pick(&[1usize, 100, 3000, case.opt.dict as usize, case.opt.dict as usize + 500]);
+        case.opt.preset = Some(simcore::case::InputSpec::new("text", plen, r_in.next_u64()));
     }
     match scen {
         "mt.equiv" | "mt.determ" => {
